@@ -228,7 +228,7 @@ def _domain(consts, term_text):
         out = [v for v in out if v <= 255]
     # an element read by a constant index, compared only with byte-sized constants (128, 0x7f, 0xff ...): an element of a byte
     # string -- a difference that needs a value above 255 there is no witness (the domain only ever withholds verdicts)
-    if re.fullmatch(r"[A-Za-z_]\w*\[-?\d+\]", term_text) and ints and all(-256 <= c <= 256 for c in ints):
+    if re.fullmatch(r".*\[-?\d+\]", term_text) and not term_text.startswith("len(") and ints and all(-256 <= c <= 256 for c in ints):
         out = [v for v in out if 0 <= v <= 255]
     out = out[:18] if len(out) > 18 else out
     other = []
